@@ -115,7 +115,10 @@ func (agg *BLS12AggregateSignature) ToBytes() []byte {
 	if agg == nil {
 		return nil
 	}
-	b := bls12.NewG2().ToCompressed(&agg.sig)
+	// ToCompressed normalizes its argument in place; work on a copy since a signature (e.g. the QC of a block
+	// whose votes are verified asynchronously) may be serialized by several goroutines at once.
+	p := agg.sig
+	b := bls12.NewG2().ToCompressed(&p)
 	return b
 }
 
